@@ -6,6 +6,9 @@ From Coq Require Import List NArith Bool String.
 From TG.Gen Require Import GenTokens.
 From TG.Model Require Import Chars Tree TreeNav DocComments SymbolMap Outline.
 From TG.Proofs Require Import TreeNavProofs DocProofs OutlineProofs.
+From TG.Gen Require Import GenHandlers.
+From TG.Model Require Import HandlerApi.
+From TG.Proofs Require Import GenHandlersEq.
 Import ListNotations.
 Open Scope N_scope.
 
@@ -267,3 +270,47 @@ Definition ex_let_tree : tree :=
 Example C19_inlay_let_example :
   inlay_hint_record_field ex_let_tree (s2n "int") 4 5 = [mkHint 5 (s2n ":int") HKFieldLet].
 Proof. vm_compute. reflexivity. Qed.
+
+(** ================= The model IS the source =================
+    coq/gen/GenHandlers.v is the rendering of the CURRENT text of handlers/hover.rs `extract_doc_comments` and `prev_token`
+    (tools/translate/t_handlers.py, re-run by every check) in the control monad of coq/model/HandlerApi.v (`?` / return / break /
+    fuel of a rendered loop / rowan assertion); rowan's cursor API and the str operations are the modelled vocabulary.
+    For ALL trees, cursors and ranges the rendering equals the hand models the theorems above are about; the rendered loops
+    never run out of the fuel the translator annotates them with; outside rowan's contract for `covering_element`
+    (empty / out-of-file range: never passed, it is the define_loc of an indexed symbol) the source panics. *)
+Theorem C19_model_is_source :
+  (forall c, src_prev_token c = outcome_of_walk (prev_token (S (cur_measure c)) c)) /\
+  (forall c, src_prev_token c <> OutOfFuel) /\
+  (forall root lo hi,
+     src_extract_doc_comments (cur_root root) (lo, hi) =
+       match covering_element root lo hi with
+       | None => Panicked
+       | Some _ => outcome_of_doc (extract_doc_comments root lo hi)
+       end).
+Proof. exact c19_model_is_source. Qed.
+Check C19_model_is_source :
+  (forall c, src_prev_token c = outcome_of_walk (prev_token (S (cur_measure c)) c)) /\
+  (forall c, src_prev_token c <> OutOfFuel) /\
+  (forall root lo hi,
+     src_extract_doc_comments (cur_root root) (lo, hi) =
+       match covering_element root lo hi with
+       | None => Panicked
+       | Some _ => outcome_of_doc (extract_doc_comments root lo hi)
+       end).
+Print Assumptions C19_model_is_source.
+
+(** C19_doc restated over the rendering of the source: inside rowan's contract, the source returns the adjacency rule *)
+Theorem C19_source_doc : forall root lo hi, covering_element root lo hi <> None ->
+  src_extract_doc_comments (cur_root root) (lo, hi) =
+    match decl_first_token root lo hi with
+    | Some d => match doc_spec (leaves_before d) with DocSome t => Done (Some t) | _ => Done None end
+    | None => Done None
+    end.
+Proof. exact c19_source_doc. Qed.
+Check C19_source_doc : forall root lo hi, covering_element root lo hi <> None ->
+  src_extract_doc_comments (cur_root root) (lo, hi) =
+    match decl_first_token root lo hi with
+    | Some d => match doc_spec (leaves_before d) with DocSome t => Done (Some t) | _ => Done None end
+    | None => Done None
+    end.
+Print Assumptions C19_source_doc.
